@@ -105,6 +105,15 @@ for _var in ("LOG_LEVEL", "LOGGING_LEVEL"):
     for _v in STEER_VALUES:
         ENVS.append((f"{_var}={_v or '<empty>'}", {_var: _v, "A": "1"}))
 STEER_ENVS = list(range(N_BASE_ENVS, len(ENVS)))
+# ordinary values under NAMES that look like secrets (a library that masks such values for its log must not mask
+# what the child gets)
+_N0 = len(ENVS)
+ENVS.append(("API_TOKEN", {"API_TOKEN": "tok-123", "A": "1"}))
+ENVS.append(("MY_SECRET_KEY+DB_PASSWORD", {"MY_SECRET_KEY": "k-456", "DB_PASSWORD": "p w"}))
+ENVS.append(("PASSWD+X_CREDENTIALS", {"PASSWD": "x", "X_CREDENTIALS": "user:pass"}))
+ENVS.append(("lower+mixed-case", {"api_token": "lower", "My_Secret": "Mixed", "passWord": "pw", "Keyring": "kr"}))
+SECRET_ENVS = list(range(_N0, len(ENVS)))
+LOGGING = ["default", "INFO", "DEBUG"]   # default = what the runner leaves (logging disabled); else root logger level
 TIMEOUTS: List[Tuple[str, Any]] = [
     ("absent", ABSENT),
     ("int", 5),
@@ -253,6 +262,42 @@ class _Quiet:
         return self.buf.getvalue()
 
 
+class _Logging:
+    """Own the process-wide logging state for the duration of a call.  The runner disables logging globally; an
+    application (and the command line) does not, so some cases lift that and set the root logger's level.
+    level: None/"default" = leave everything as the runner set it; "lift" = logging enabled, levels untouched;
+    "INFO"/"DEBUG" = logging enabled and the root logger at that level."""
+
+    def __init__(self, level: Optional[str], null_handler: bool = True):
+        self.level = None if level in (None, "default") else level
+        self.null_handler = null_handler
+
+    def __enter__(self):
+        import logging
+
+        root = logging.getLogger()
+        self.saved = (root.manager.disable, root.level, list(root.handlers), logging.getLogger("anyio").level)
+        if self.level is not None:
+            logging.disable(logging.NOTSET)
+            if not root.handlers and self.null_handler:
+                root.addHandler(logging.NullHandler())     # otherwise logging.debug() installs a stderr handler itself
+            if self.level != "lift":
+                root.setLevel(getattr(logging, self.level))
+        return self
+
+    def __exit__(self, *a):
+        import logging
+
+        root = logging.getLogger()
+        for h in list(root.handlers):
+            if h not in self.saved[2]:
+                root.removeHandler(h)
+        root.setLevel(self.saved[1])
+        logging.getLogger("anyio").setLevel(self.saved[3])
+        logging.disable(self.saved[0])
+        return False
+
+
 @contextlib.contextmanager
 def _parent_env():
     saved = dict(os.environ)
@@ -358,6 +403,14 @@ MODES = [
     "command-does-not-exist",        # 6 command=<tmp>/s<i>/no-such-program: this server cannot start      record: s<i> (stays empty)
 ]
 CANNOT_START = 6
+MODES += [
+    "program-under-odd-directory",               # 7 command=<tmp>/s<i>/<odd name>/server, args as configured
+    "program-under-odd-directory+no-args-key",   # 8 the same, the entry has no "args" member at all
+]
+# directory names (6th element of the shape); at every white-space position of the resulting command a decoy program
+# is installed at the prefix, so "the command was split" is observable
+ODD_DIRS = [("space", "my tools"), ("tab", "tab\there"), ("two-spaces", "two  spaces"), ("quotes+space", 'x "y z"'),
+            ("apostrophe+space", "it's here"), ("no-break-space", "nb\u00a0sp"), ("em-space", "em\u2003sp")]
 PATH_FORMS = [("only", "{d}"), ("first", "{d}:/usr/bin:/bin"), ("last", "/usr/bin:/bin:{d}")]
 # the harness process's own PATH during the case (restored afterwards)
 HOST_PATHS = ["plain", "decoy-prepended", "decoy-appended", "own-prepended"]
@@ -411,6 +464,14 @@ def server_spec(i: int, shape: List[int], tmp: str) -> Dict[str, Any]:
     elif m == CANNOT_START:
         command, cargs, env, sink = os.path.join(own, "no-such-program"), args, base, own
         exp_argv = [command] + cargs
+    elif m in (7, 8):
+        if m == 8 and args:
+            raise core.HarnessError("grammar: mode without args key needs args []")
+        odd_dir = os.path.join(own, ODD_DIRS[pf][1])
+        prog = os.path.join(odd_dir, "server")
+        command, cargs, env, sink = prog, args, base, odd_dir
+        exp_argv = [WITNESS_PY, prog] + args
+        env_name += "+odd-dir-" + ODD_DIRS[pf][0]
     else:
         raise core.HarnessError(f"grammar: unknown mode {m}")
     entry: Dict[str, Any] = {"command": command, "args": cargs}
@@ -419,7 +480,16 @@ def server_spec(i: int, shape: List[int], tmp: str) -> Dict[str, Any]:
     if TIMEOUTS[t][1] is not ABSENT:
         entry["timeout"] = TIMEOUTS[t][1]
     entry.update(EXTRAS[x][1])
-    return {"entry": entry, "sink": sink, "exp_argv": exp_argv, "env": env, "env_name": env_name, "mode": m,
+    decoys: List[str] = []
+    if m in (7, 8):
+        if m == 8:
+            del entry["args"]
+        for pos, ch in enumerate(command):
+            if ch.isspace() and pos > len(own) + 1:
+                pre = command[:pos]
+                if pre not in decoys and not pre.endswith(os.sep):
+                    decoys.append(pre)
+    return {"decoys": decoys, "entry": entry, "sink": sink, "exp_argv": exp_argv, "env": env, "env_name": env_name, "mode": m,
             "own": own, "bindir": bindir, "prog": prog, "shape": [a, e, t, x, m, pf]}
 
 
@@ -439,6 +509,8 @@ def shape_text(shape: List[int]) -> str:
         out += f" [command={BARE_NAME!r} (bare)]"
     elif m == CANNOT_START:
         out += " [command=<own dir>/no-such-program: cannot start]"
+    elif m in (7, 8):
+        out += f" [command=<own dir>/{ODD_DIRS[pf][1]!r}/server" + ("; no 'args' member" if m == 8 else "") + "]"
     return out
 
 
@@ -484,6 +556,10 @@ def _build(cfg: Dict[str, Any], tmp: str, path_override: Optional[str] = None,
             shutil.copyfile(WITNESS_SRC, os.path.join(sp["own"], "witness.py"))
         elif m == CANNOT_START:
             pass
+        elif m in (7, 8):
+            _install_wrapper(sp["prog"])
+            for pre in sp["decoys"]:
+                _install_wrapper(pre)      # a different program exactly where a split of the command would point
         elif m in (1, 2):
             os.makedirs(os.path.join(tmp, "shared"), exist_ok=True)
             shutil.copyfile(WITNESS_SRC, os.path.join(tmp, "shared", "witness.py"))
@@ -684,6 +760,9 @@ def _probe_loader(path: str, name: str) -> str:
 # one case
 # ---------------------------------------------------------------------------
 def case_text(cfg: Dict[str, Any]) -> str:
+    if "after_cli" in cfg:
+        rest = {k: v for k, v in cfg.items() if k != "after_cli"}
+        return f"same process: first the command line with flags {cfg['after_cli']!r} (logging stays as it left it), then: {case_text(rest)}"
     if "cli" in cfg:
         return cli_text(cfg["cli"])
     if "sequence" in cfg:
@@ -694,6 +773,8 @@ def case_text(cfg: Dict[str, Any]) -> str:
                 f"{SEQ_STATES[s2]!r}, then {e2} || first: {case_text(seq_phase(s1, e1))} || second: "
                 f"{case_text(seq_phase(s2, e2))}")
     parts = [f"entry={cfg['entry']}"]
+    if cfg.get("logging") and cfg["logging"] != "default":
+        parts.append(f"root logger at {cfg['logging']}")
     if cfg.get("cmdkind") and cfg["entry"] == "run_command":
         parts.append(f"command={cfg['cmdkind']}")
     if cfg.get("verbose"):
@@ -739,6 +820,8 @@ def run_one(ctl: explorer.Ctl, cfg: Dict[str, Any]) -> Dict[str, Any]:
     try:
         if "sequence" in cfg:
             return _run_sequence(cfg, tmp, pids)
+        if "after_cli" in cfg:
+            return _run_after_cli(cfg, tmp, pids)
         if "cli" in cfg:
             return _run_cli_case(cfg, tmp, pids)
         return _run_case(cfg, tmp, pids)
@@ -749,6 +832,33 @@ def run_one(ctl: explorer.Ctl, cfg: Dict[str, Any]) -> Dict[str, Any]:
                 _launches_in(root, pids)
         _reap(pids, marker, grace=0.0 if not pids else 2.0)
         shutil.rmtree(tmp, ignore_errors=True)
+
+
+def _run_after_cli(cfg: Dict[str, Any], tmp: str, pids: List[int]) -> Dict[str, Any]:
+    """The command line is run first in this process (it configures logging and nobody undoes that), then an ordinary
+    case.  The ordinary case is judged exactly as alone."""
+    flags = cfg["after_cli"]
+    cli_cfg = {"cli": {"config": "existing", "server": "given", "defaults": [], "flags": flags, "form": "long", "via": "main"}}
+    case = {k: v for k, v in cfg.items() if k != "after_cli"}
+    roots = [os.path.join(tmp, "call1"), os.path.join(tmp, "call2")]
+    for r in roots:
+        os.mkdir(r)
+    with _Logging("lift", null_handler=False):     # snapshot + restore around both calls; main() installs its own handler
+        first = _run_cli_case(cli_cfg, roots[0], pids, keep_logging=True)
+        second = _run_case(case, tmp, pids, root=roots[1])
+    viol = list(first["violations"])
+    for v in second["violations"]:
+        sig = dict(v["sig"])
+        sig["after"] = "command-line " + flags
+        viol.append({"sig": sig, "msg": f"after main() was run with flags {flags!r} in the same process: {v['msg']}"})
+    counters: Dict[str, int] = {}
+    for ph in (first, second):
+        for kk, vv in (ph.get("counters") or {}).items():
+            counters[kk] = counters.get(kk, 0) + vv
+        ph.pop("violations", None)
+        ph.pop("counters", None)
+    return {"entry": f"command line ({flags}) then {case['entry']}", "calls": [first, second],
+            "outcome": f"[{first['outcome']}] then [{second['outcome']}]", "violations": viol, "counters": counters}
 
 
 def seq_phase(state: int, entry: str) -> Dict[str, Any]:
@@ -859,7 +969,7 @@ def _run_case(cfg: Dict[str, Any], tmp: str, pids: List[int], root: Optional[str
         # run_command closes its connections from another task and leaves the transports to the collector
         quiet = _Quiet(collect=(entry == "run_command"))
         try:
-            with _Watchdog(CASE_LIMIT_S):
+            with _Watchdog(CASE_LIMIT_S), _Logging(cfg.get("logging")):
                 with quiet:
                     if entry == "load_config":
                         _drive_load_config(path, names[0], rec)
@@ -881,6 +991,15 @@ def _run_case(cfg: Dict[str, Any], tmp: str, pids: List[int], root: Optional[str
             sinks.setdefault(sp["sink"], []).append(i)
         launches: Dict[str, List[Dict[str, Any]]] = {sk: _launches_in(sk, pids) for sk in sinks}
         decoy_launches = _launches_in(decoy_bin, pids) if decoy_bin else []
+        split_decoy_launches: List[Dict[str, Any]] = []
+        decoy_dirs: List[str] = []
+        for sp in specs:
+            for pre in sp.get("decoys") or []:
+                d = os.path.dirname(pre)
+                if d != sp["sink"] and d not in decoy_dirs:
+                    decoy_dirs.append(d)
+        for d in decoy_dirs:
+            split_decoy_launches += _launches_in(d, pids)
         _reap(pids, marker)
         loader_probe: Dict[str, str] = {}
 
@@ -924,7 +1043,7 @@ def _run_case(cfg: Dict[str, Any], tmp: str, pids: List[int], root: Optional[str
             """Is another requested server configured with the same command and args?"""
             me = specs[i]
             same = [j for j in requested_idx if j != i and specs[j]["entry"]["command"] == me["entry"]["command"]
-                    and specs[j]["entry"]["args"] == me["entry"]["args"]]
+                    and specs[j]["entry"].get("args") == me["entry"].get("args")]
             if not same:
                 return "none"
             return "env-differs" if any(effective_env(specs[j]) != effective_env(me) for j in same) else "env-same"
@@ -937,6 +1056,15 @@ def _run_case(cfg: Dict[str, Any], tmp: str, pids: List[int], root: Optional[str
                 f"(argv {[_hexs(L['argv']) for L in decoy_launches]!r}); the configuration names "
                 f"{[sp['entry']['command'] for sp in bare]!r} with env PATH "
                 f"{[(sp['entry'].get('env') or {}).get('PATH', '<default>') for sp in bare]!r}")
+
+        if split_decoy_launches:
+            odd = [sp for sp in specs if sp["mode"] in (7, 8)]
+            add({"class": "wrong-program-launched", "entry": entry, "resolution": "command-with-white-space-was-split",
+                 "directory": ODD_DIRS[odd[0]["shape"][5]][0],
+                 "args": "no-args-member" if odd[0]["mode"] == 8 else ("empty" if not odd[0]["entry"].get("args") else "non-empty")},
+                f"{len(split_decoy_launches)} launch(es) of a program at a white-space prefix of the configured command "
+                f"(argv {[_hexs(L['argv']) for L in split_decoy_launches]!r}); configured: command "
+                f"{odd[0]['entry']['command']!r} args {odd[0]['entry'].get('args', '<absent>')!r}")
 
         for sk, members in sinks.items():
             ls = launches[sk]
@@ -985,7 +1113,7 @@ def _run_case(cfg: Dict[str, Any], tmp: str, pids: List[int], root: Optional[str
                 if not ok:
                     add({"class": "argv-mismatch", "entry": entry, "args": ARGS[shape[0]][0], "launch": MODES[sp["mode"]]},
                         f"server {reqnames!r}: child argv {_hexs(L['argv'])!r} != expected {_hexs(exp_argv)!r} "
-                        f"(configured command {sp['entry']['command']!r} args {sp['entry']['args']!r})")
+                        f"(configured command {sp['entry']['command']!r} args {sp['entry'].get('args', '<absent>')!r})")
                 got_env = {}
                 for k, v in L["env"].items():
                     try:
@@ -1079,7 +1207,9 @@ def _run_case(cfg: Dict[str, Any], tmp: str, pids: List[int], root: Optional[str
             obs["outcome"] = (f"{tag} requested={len(cfg['request'])} launched={n_launched} "
                               f"handshakes={n_handshake}" + (" TIMEOUT" if timed_out else ""))
         obs["violations"] = viol
-        obs["counters"] = {"witness_launches": sum(len(x) for x in launches.values()) + len(decoy_launches),
+        obs["split_decoy_launches"] = len(split_decoy_launches)
+        obs["counters"] = {"witness_launches": sum(len(x) for x in launches.values()) + len(decoy_launches)
+                           + len(split_decoy_launches),
                            "handshakes_seen_by_witness": n_handshake}
         return obs
 
@@ -1097,7 +1227,7 @@ CLI_FLAGS = ["run", "verbose", "list"]
 CLI_FORMS = ["long", "short", "equals"]                             # --config P --server S | -c P -s S | --config=P --server=S
 CLI_VIA = ["main", "process"]                                       # main() called in the worker | python -m chuk_mcp
 # every file holds the same three server names, each with its own witness, so the record says WHICH file was used
-CLI_SERVERS = [("alpha", ["a b"], {"A": "1"}), ("sqlite", [], ABSENT)]
+CLI_SERVERS = [("alpha", ["a b"], {"A": "1", "API_TOKEN": "tok-123", "db_password": "p w"}), ("sqlite", [], ABSENT)]
 
 
 def cli_text(c: Dict[str, Any]) -> str:
@@ -1128,7 +1258,7 @@ def _cli_file(tmp: str, fid: str) -> Dict[str, Any]:
     return {"doc": {"mcpServers": servers}, "sinks": sinks}
 
 
-def _run_cli_case(cfg: Dict[str, Any], tmp: str, pids: List[int]) -> Dict[str, Any]:
+def _run_cli_case(cfg: Dict[str, Any], tmp: str, pids: List[int], keep_logging: bool = False) -> Dict[str, Any]:
     import logging
     import subprocess
 
@@ -1197,6 +1327,11 @@ def _run_cli_case(cfg: Dict[str, Any], tmp: str, pids: List[int]) -> Dict[str, A
             quiet = _Quiet(collect=False)
             root_logger = logging.getLogger()
             saved = (list(root_logger.handlers), root_logger.level, logging.getLogger("anyio").level, sys.argv, os.getcwd())
+            lifted = _Logging("lift")
+            lifted.__enter__()                      # a command line runs with logging enabled; main() sets the level
+            for h in list(root_logger.handlers):
+                if type(h).__name__ == "NullHandler" and h not in saved[0]:
+                    root_logger.removeHandler(h)    # let main()'s basicConfig install its own handler, as in a fresh process
             try:
                 with _Watchdog(CASE_LIMIT_S):
                     with quiet:
@@ -1215,11 +1350,8 @@ def _run_cli_case(cfg: Dict[str, Any], tmp: str, pids: List[int]) -> Dict[str, A
             finally:
                 sys.argv = saved[3]
                 os.chdir(saved[4])
-                for h in list(root_logger.handlers):
-                    if h not in saved[0]:
-                        root_logger.removeHandler(h)
-                root_logger.setLevel(saved[1])
-                logging.getLogger("anyio").setLevel(saved[2])
+                if not keep_logging:
+                    lifted.__exit__(None, None, None)
             printed = quiet.text()
         else:
             import chuk_mcp
@@ -1536,6 +1668,32 @@ def configs_for(tier: str) -> Dict[str, Tuple[int, List[Dict[str, Any]]]]:
     # (8) the command line: main() with an argument vector, working directory and HOME (the real-process cases are in the
     #     two-children part above)
     parts["command-line-main"] = (1, cli["command-line-main"])
+
+    # (9) env NAMES that look like secrets x what the root logger is set to (and: a command-line call earlier in the process)
+    g = []
+    for entry in ENTRIES:
+        extra = {"cmdkind": "plain"} if entry == "run_command" else ({"verbose": False} if entry == "test_server" else {})
+        for e in SECRET_ENVS:
+            for lvl in LOGGING:
+                for a in ((0, 2, 5, 6) if not thorough else range(len(ARGS))):
+                    g.append({"entry": entry, "servers": [[a, e, 0, 0]], "request": [0], "logging": lvl, **extra})
+            for flags in ("verbose", "run"):
+                g.append({"after_cli": flags, "entry": entry, "servers": [[2, e, 0, 0]], "request": [0], **extra})
+        if entry == "test_server":
+            for e in SECRET_ENVS:
+                for lvl in LOGGING:
+                    g.append({"entry": entry, "servers": [[2, e, 0, 0]], "request": [0], "logging": lvl, "verbose": True})
+    parts["secret-looking-env-names-x-logging"] = (1, g)
+
+    # (10) a command whose path contains white space, with no / empty / some args: it is ONE program name
+    g = []
+    for entry in ENTRIES:
+        extra = {"cmdkind": "plain"} if entry == "run_command" else ({"verbose": False} if entry == "test_server" else {})
+        for d in range(len(ODD_DIRS)):
+            for (m, a) in ((8, 0), (7, 0), (7, 2), (7, 6)):
+                for e in ((0, 2) if not thorough else (0, 1, 2, 3)):
+                    g.append({"entry": entry, "servers": [[a, e, 0, 0, m, d]], "request": [0], **extra})
+    parts["command-path-with-white-space"] = (1, g)
     return parts
 
 
@@ -1579,6 +1737,9 @@ def run(tier: str, only=None) -> core.Result:
         "env": ["absent" if e is ABSENT else e for _, e in ENVS[:N_BASE_ENVS]],
         "env_steering": [e for _, e in ENVS[N_BASE_ENVS:]],
         "sequence_states": SEQ_STATES,
+        "env_with_secret_looking_names": [e for _, e in ENVS[SECRET_ENVS[0]:]],
+        "root_logger": LOGGING,
+        "odd_directory_names": [d for _, d in ODD_DIRS],
         "command_line": {"config": CLI_CONFIG, "server": CLI_SERVER, "flags": CLI_FLAGS, "option_forms": CLI_FORMS,
                          "default_locations_in_order": DEFAULT_LOCATIONS, "via": CLI_VIA},
         "run_command_command_functions": CMD_KINDS,
@@ -1632,6 +1793,13 @@ def run(tier: str, only=None) -> core.Result:
         "was used; run_command additionally with command functions named chat_run, an interactive_mode without the "
         "server_info parameter, one that raises and one that raises KeyboardInterrupt, and with a server whose command "
         "does not exist among working ones.  "
+        "(9) env whose NAMES contain KEY/TOKEN/SECRET/PASSWORD/PASSWD/CREDENTIAL (upper, lower, mixed case) with ordinary "
+        "values x root logger {as the runner leaves it (disabled), INFO, DEBUG} x args x entry points, test_server also "
+        "verbose, and each entry point after a command-line call (--verbose / plain) in the same process whose logging "
+        "set-up is left in place; the command-line part itself now runs with logging enabled and its alpha server carries "
+        "such names; (10) the program under a directory whose name contains a space / tab / two spaces / quotes + space / "
+        "apostrophe + space / no-break space / em space x {no args member, args [], two non-empty args} x env x entry points, "
+        "with a decoy program installed at every white-space prefix of the command.  "
         "A case is non-trivial if it ran the entry point to completion; distinct = distinct observation digests "
         "(the observation contains the case description, what each witness recorded and what the entry point printed, "
         "with temp paths and the interpreter path normalised)"
@@ -1676,6 +1844,10 @@ def run(tier: str, only=None) -> core.Result:
         "a server whose command does not exist is expected not to start while run_command reports it and serves the others; "
         "servers that start but never answer, and cleanup time-outs inside run_command, are not generated (they take the "
         "library's 60 s / 2 s real time-outs)",
+        "logging: cases that set the root logger lift the runner's global logging.disable for the call, put a NullHandler "
+        "on the root logger (the command line installs its own stderr handler; fd 2 is /dev/null meanwhile) and restore "
+        "level, handlers and the disable afterwards; file-based logging configuration is not generated",
+        "odd program paths are absolute; the expected argv for the '#!' wrapper is [interpreter, configured path, *args]",
         "valid JSON that is not an object, entries without 'command', directories given as config path are outside the three "
         "malformed classes of the statement and not generated",
     ]
